@@ -321,3 +321,176 @@ M("C15", "benign-shorter-timeout", "benign",
   [(P, None, "REQUEST_TIMEOUT = 30.0\n", "REQUEST_TIMEOUT = 10.0\n")])
 M("C15", "benign-close-directly-in-deadline", "benign",
   [("server/tls_protocol.py", "TLSServerProtocol._handle_handshake_timeout", "            self._close_with_error(\"TLS handshake timeout\")\n", "            if self.transport:\n                self.transport.close()\n")])
+
+# ---------------------------------------------------------------- C02
+H = "server/handler.py"
+SH = "StaticFileHandler.handle"
+M("C02", "revert-fix-index-unchecked", "breaking",
+  [(H, SH, "                index_path = (file_path / index_name).resolve()\n                if index_path.is_file() and self._is_safe_path(index_path):",
+    "                index_path = file_path / index_name\n                if index_path.exists() and index_path.is_file():")],
+  "P1:server.handler:StaticFileHandler.handle:unresolved:index_path")
+M("C02", "index-resolved-but-unchecked", "breaking",
+  [(H, SH, "if index_path.is_file() and self._is_safe_path(index_path):", "if index_path.is_file():")],
+  "P1:server.handler:StaticFileHandler.handle:unchecked:index_path")
+M("C02", "drop-resolve", "breaking",
+  [(H, SH, "file_path = (self.document_root / requested_path).resolve()", "file_path = self.document_root / requested_path")],
+  "P1:server.handler:StaticFileHandler.handle:unresolved:file_path")
+M("C02", "check-moved-below-directory-handling", "breaking",
+  [(H, SH, "        if not self._is_safe_path(file_path):\n            return GeminiResponse(status=StatusCode.NOT_FOUND.value, meta=\"Not found\")\n\n        # If path is a directory", "        # If path is a directory"),
+   (H, SH, "        # Check if file exists\n", "        if not self._is_safe_path(file_path):\n            return GeminiResponse(status=StatusCode.NOT_FOUND.value, meta=\"Not found\")\n\n        # Check if file exists\n")],
+  "P1:server.handler:StaticFileHandler.handle:unchecked:file_path")
+M("C02", "string-prefix-containment", "breaking",
+  [(H, "StaticFileHandler._is_safe_path", "            file_path.relative_to(self.document_root)\n            return True\n", "            return str(file_path).startswith(str(self.document_root))\n")],
+  "P2:server.handler:StaticFileHandler._is_safe_path")
+M("C02", "containment-swallowed", "breaking",
+  [(H, "StaticFileHandler._is_safe_path", "        except ValueError:\n            # Path is not within document_root\n            return False\n", "        except ValueError:\n            return True\n")],
+  "P2:server.handler:StaticFileHandler._is_safe_path:true-without-containment")
+M("C02", "root-not-resolved", "breaking",
+  [(H, "StaticFileHandler.__init__", "self.document_root = Path(document_root).resolve()", "self.document_root = Path(document_root)")],
+  "P2:server.handler:StaticFileHandler:root-unresolved")
+M("C02", "body-on-not-found", "breaking",
+  [(H, SH, "        if not file_path.exists() or not file_path.is_file():\n            return GeminiResponse(status=StatusCode.NOT_FOUND.value, meta=\"Not found\")\n",
+    "        if not file_path.exists() or not file_path.is_file():\n            return GeminiResponse(status=StatusCode.NOT_FOUND.value, meta=\"Not found\", body=str(file_path))\n")],
+  "P3:server.handler:StaticFileHandler.handle:body-on-failure")
+M("C02", "revert-fix-no-unquote", "breaking",
+  [(H, SH, "requested_path = unquote(request.path).lstrip(\"/\")", "requested_path = request.path.lstrip(\"/\")")],
+  "P4:server.handler:StaticFileHandler.handle:no-percent-decoding")
+M("C02", "double-unquote", "breaking",
+  [(H, SH, "requested_path = unquote(request.path).lstrip(\"/\")", "requested_path = unquote(unquote(request.path)).lstrip(\"/\")")],
+  "P4:server.handler:StaticFileHandler.handle:double-percent-decoding")
+M("C02", "upload-containment-diverges", "breaking",
+  [(H, "FileUploadHandler._is_safe_path", "            file_path.relative_to(self.upload_dir)\n            return True\n", "            return str(file_path).startswith(str(self.upload_dir))\n")],
+  "P5:")
+M("C02", "benign-is-relative-to", "benign",
+  [(H, "StaticFileHandler._is_safe_path", "        try:\n            # Check if the resolved path is relative to document_root\n            file_path.relative_to(self.document_root)\n            return True\n        except ValueError:\n            # Path is not within document_root\n            return False\n", "        return file_path.is_relative_to(self.document_root)\n"),
+   (H, "FileUploadHandler._is_safe_path", "        try:\n            file_path.relative_to(self.upload_dir)\n            return True\n        except ValueError:\n            return False\n", "        return file_path.is_relative_to(self.upload_dir)\n")])
+M("C02", "benign-rename-file-path", "benign",
+  [(H, SH, "file_path", "target_file", -1)])
+
+# ---------------------------------------------------------------- C05
+CFGF = "server/config.py"
+M("C05", "revert-fix-empty-list", "breaking",
+  [(CFGF, "ServerConfig.get_certificate_auth_config", "set(fingerprints_list) if fingerprints_list is not None else None", "set(fingerprints_list) if fingerprints_list else None")],
+  "A2:server.config:ServerConfig.get_certificate_auth_config:allow-list-fidelity:empty list")
+M("C05", "revert-fix-raw-path-matching", "breaking",
+  [(MW, "CertificateAuth._extract_path", "        return \"/\" + posixpath.normpath(unquote(path)).lstrip(\"/\")\n", "        return path\n")],
+  "A5:server.middleware:CertificateAuth.process_request:spelling:")
+M("C05", "matcher-does-not-decode", "breaking",
+  [(MW, "CertificateAuth._extract_path", "posixpath.normpath(unquote(path))", "posixpath.normpath(path)")],
+  "A5:server.middleware:CertificateAuth.process_request:spelling:percent-decoding")
+M("C05", "matcher-no-directory-form", "breaking",
+  [(MW, "CertificateAuth._find_matching_rule", "if path.startswith(rule.prefix) or as_directory.startswith(rule.prefix):", "if path.startswith(rule.prefix):")],
+  "A5:server.middleware:CertificateAuth.process_request:spelling:directory-slash")
+M("C05", "exact-match-instead-of-prefix", "breaking",
+  [(MW, "CertificateAuth._find_matching_rule", "if path.startswith(rule.prefix) or as_directory.startswith(rule.prefix):", "if path == rule.prefix:")],
+  "A")
+M("C05", "reversed-rule-order", "breaking",
+  [(MW, "CertificateAuth._find_matching_rule", "for rule in self.config.path_rules:", "for rule in reversed(self.config.path_rules):")],
+  "A4:server.middleware:CertificateAuth._find_matching_rule:rule-order")
+M("C05", "last-match-wins", "breaking",
+  [(MW, "CertificateAuth._find_matching_rule",
+    "        for rule in self.config.path_rules:\n            if path.startswith(rule.prefix) or as_directory.startswith(rule.prefix):\n                return rule\n        return None\n",
+    "        found = None\n        for rule in self.config.path_rules:\n            if path.startswith(rule.prefix) or as_directory.startswith(rule.prefix):\n                found = rule\n        return found\n")],
+  "A4:server.middleware:CertificateAuth._find_matching_rule:first-match")
+M("C05", "allow-list-truthiness", "breaking",
+  [(MW, "CertificateAuth.process_request", "if rule.allowed_fingerprints is not None:", "if rule.allowed_fingerprints:")],
+  "A1:server.middleware:CertificateAuth.process_request:table:")
+M("C05", "drop-second-60", "breaking",
+  [(MW, "CertificateAuth.process_request", "            if client_cert_fingerprint is None:\n                # Whitelist requires a cert\n                return False, \"60 Client certificate required\\r\\n\"\n\n", "")],
+  "A1:server.middleware:CertificateAuth.process_request:table:")
+M("C05", "61-becomes-60", "breaking",
+  [(MW, "CertificateAuth.process_request", "return False, \"61 Certificate not authorized\\r\\n\"", "return False, \"60 Client certificate required\\r\\n\"")],
+  "A1:server.middleware:CertificateAuth.process_request:table:")
+M("C05", "require-cert-key-misspelt", "breaking",
+  [(CFGF, "ServerConfig.get_certificate_auth_config", "require_cert=path_config.get(\"require_cert\", False)", "require_cert=path_config.get(\"required\", False)")],
+  "A3:server.config:ServerConfig.get_certificate_auth_config:key-crossed:require_cert")
+M("C05", "allow-list-not-passed", "breaking",
+  [(CFGF, "ServerConfig.get_certificate_auth_config", "                    allowed_fingerprints=fingerprints,\n", "")],
+  "A2:server.config:ServerConfig.get_certificate_auth_config:allow-list-dropped")
+M("C05", "toml-paths-wrong-section", "breaking",
+  [(CFGF, "ServerConfig.from_toml", "certificate_auth_paths=certificate_auth.get(\"paths\")", "certificate_auth_paths=server.get(\"certificate_auth_paths\")")],
+  "A3:server.config:ServerConfig.from_toml:toml-paths")
+M("C05", "pyopenssl-only-for-require-cert", "breaking",
+  [("server/server.py", "start_server", "rule.require_cert or rule.allowed_fingerprints is not None\n            for rule in certificate_auth_config.path_rules", "rule.require_cert\n            for rule in certificate_auth_config.path_rules")],
+  "A7:server.server:start_server:backend-selection")
+M("C05", "benign-regex-slash-collapse", "benign",
+  [(MW, "CertificateAuth._extract_path", "        return \"/\" + posixpath.normpath(unquote(path)).lstrip(\"/\")\n", "        canonical = posixpath.normpath(unquote(path))\n        return \"/\" + canonical.lstrip(\"/\")\n")])
+
+# ---------------------------------------------------------------- C09
+M("C09", "revert-fix-default-deny-dropped", "breaking",
+  [(CFGF, "ServerConfig.get_access_control_config", "            if self.access_control_default_allow:\n                return None\n", "            return None\n")],
+  "I2:server.config:ServerConfig.get_access_control_config:policy-dropped")
+M("C09", "allow-before-deny", "breaking",
+  [(MW, "AccessControl._is_allowed",
+    "        # Check deny list first (takes precedence)\n        for network in self.deny_networks:\n            if ip_obj in network:\n                return False\n\n", ""),
+   (MW, "AccessControl._is_allowed",
+    "        # No allow list - use default policy\n",
+    "        for network in self.deny_networks:\n            if ip_obj in network:\n                return False\n\n        # No allow list - use default policy\n")],
+  "I1:server.middleware:AccessControl._is_allowed:admit-before-deny-list")
+M("C09", "invalid-ip-admitted", "breaking",
+  [(MW, "AccessControl._is_allowed", "        except ValueError:\n            # Invalid IP - deny\n            return False\n", "        except ValueError:\n            return self.config.default_allow\n")],
+  "I1:server.middleware:AccessControl._is_allowed:unparsable-admitted")
+M("C09", "allow-miss-falls-to-default", "breaking",
+  [(MW, "AccessControl._is_allowed", "            # Not in allow list\n            return False\n", "")],
+  "I1:server.middleware:AccessControl._is_allowed:allow-miss-admitted")
+M("C09", "default-negated", "breaking",
+  [(MW, "AccessControl._is_allowed", "        return self.config.default_allow\n", "        return not self.config.default_allow\n")],
+  "I1:server.middleware:AccessControl._is_allowed:default-policy")
+M("C09", "bad-entry-skipped", "breaking",
+  [(MW, "AccessControl.__init__",
+    "                    except ValueError:\n                        # Try IPv6\n                        self.deny_networks.append(ip_network(f\"{cidr}/128\"))\n",
+    "                    except ValueError:\n                        continue\n")],
+  "I3:server.middleware:AccessControl.__init__:entry-skipped")
+M("C09", "acl-ctor-in-try", "breaking",
+  [("server/server.py", "start_server",
+    "        access_control = AccessControl(access_control_config)\n        middlewares.append(access_control)\n",
+    "        try:\n            access_control = AccessControl(access_control_config)\n            middlewares.append(access_control)\n        except ValueError:\n            logger.warning(\"access_control_invalid\")\n")],
+  "I3:server.server:start_server")
+M("C09", "deny-list-feeds-allow-list", "breaking",
+  [(CFGF, "ServerConfig.get_access_control_config", "allow_list=self.access_control_allow_list,", "allow_list=self.access_control_deny_list,")],
+  "I5:server.config:ServerConfig.get_access_control_config:field-crossed:allow_list")
+M("C09", "toml-deny-key", "breaking",
+  [(CFGF, "ServerConfig.from_toml", "access_control_deny_list=access_control.get(\"deny_list\")", "access_control_deny_list=access_control.get(\"deny\")")],
+  "I5:server.config:ServerConfig.from_toml:toml-key:access_control_deny_list")
+M("C09", "refusal-status-59", "breaking",
+  [(MW, "AccessControl.process_request", "\"53 Access denied\\r\\n\"", "\"59 Access denied\\r\\n\"")],
+  "I4:server.middleware:AccessControl.process_request:verdict:denied")
+M("C09", "benign-any-form", "benign",
+  [(MW, "AccessControl._is_allowed", "            # Not in allow list\n            return False\n", "            return False  # not in allow list\n")])
+
+# ---------------------------------------------------------------- C10
+M("C10", "revert-fix-eviction-by-age", "breaking",
+  [(MW, "RateLimiter._cleanup_loop", "                and bucket.tokens + (now - bucket.last_update) * bucket.refill_rate\n                >= bucket.capacity\n", "")],
+  "L3:server.middleware:RateLimiter._cleanup_loop:eviction-ignores-fill-state")
+M("C10", "drop-min-clamp", "breaking",
+  [(MW, "TokenBucket.consume", "self.tokens = min(self.capacity, self.tokens + (elapsed * self.refill_rate))", "self.tokens = self.tokens + (elapsed * self.refill_rate)")],
+  "L1:server.middleware:TokenBucket.consume:unclamped-refill")
+M("C10", "decrement-unguarded", "breaking",
+  [(MW, "TokenBucket.consume", "        if self.tokens >= tokens:\n            self.tokens -= tokens\n            return True\n\n        return False\n", "        self.tokens -= tokens\n        return self.tokens >= 0\n")],
+  "L1:server.middleware:TokenBucket.consume")
+M("C10", "no-timestamp-update", "breaking",
+  [(MW, "TokenBucket.consume", "        self.last_update = now\n", "")],
+  "L1:server.middleware:TokenBucket.consume:refill-without-timestamp")
+M("C10", "bucket-keyed-by-url", "breaking",
+  [(MW, "RateLimiter.process_request", "bucket = self.buckets[client_ip]", "bucket = self.buckets.setdefault(request_url, self.buckets[client_ip])")],
+  "L2:server.middleware:RateLimiter.process_request")
+M("C10", "await-before-consume", "breaking",
+  [(MW, "RateLimiter.process_request", "        bucket = self.buckets[client_ip]\n", "        bucket = self.buckets[client_ip]\n        await asyncio.sleep(0)\n")],
+  "L4:server.middleware:RateLimiter.process_request:await-in-decision")
+M("C10", "wall-clock", "breaking",
+  [(MW, "TokenBucket.consume", "now = time.monotonic()", "now = time.time()")],
+  "L5:server.middleware:TokenBucket.consume:clock")
+M("C10", "refuse-with-40", "breaking",
+  [(MW, "RateLimiter.process_request", "f\"44 Rate limit exceeded.", "f\"40 Rate limit exceeded.")],
+  "L6:server.middleware:RateLimiter.process_request:verdict")
+M("C10", "retry-hint-constant", "breaking",
+  [(MW, "RateLimiter.process_request", "retry_after = self.config.retry_after", "retry_after = 30")],
+  "L6:server.middleware:RateLimiter.process_request:retry-hint")
+M("C10", "new-bucket-double-capacity", "breaking",
+  [(MW, "TokenBucket.__init__", "self.tokens = float(capacity)", "self.tokens = float(capacity * 2)")],
+  "L2:server.middleware:TokenBucket:initial-fill")
+M("C10", "await-between-select-and-delete", "breaking",
+  [(MW, "RateLimiter._cleanup_loop", "            for ip in to_remove:\n                del self.buckets[ip]\n", "            for ip in to_remove:\n                await asyncio.sleep(0)\n                del self.buckets[ip]\n")],
+  "L4:server.middleware:RateLimiter._cleanup_loop:await-between-select-and-delete")
+M("C10", "benign-conditional-clamp", "benign",
+  [(MW, "TokenBucket.consume", "self.tokens = min(self.capacity, self.tokens + (elapsed * self.refill_rate))", "self.tokens = self.tokens + (elapsed * self.refill_rate)\n        if self.tokens > self.capacity:\n            self.tokens = self.capacity")])
